@@ -26,11 +26,11 @@ SRC = os.path.join(REPO, "src")
 _MOD_CACHE = {}
 
 
-def load_module(modname, mutate=None):
+def load_module(modname, mutate=None, path=None):
     """parse the CURRENT source of a repo module.  mutate: optional callable(tree)->tree (canary mutants, in memory)"""
     key = (modname, mutate)     # the function object itself (keeps it alive: ids are not reused)
     if key not in _MOD_CACHE:
-        path = os.path.join(SRC, *modname.split(".")) + ".py"
+        path = path or os.path.join(SRC, *modname.split(".")) + ".py"
         with open(path) as f:
             tree = ast.parse(f.read(), filename=path)
         if mutate is not None:
@@ -117,8 +117,13 @@ class Contract:
     def short(self):
         return self.modname.split(".")[-1] + "." + self.qual
 
+    source_path = None      # set for functions outside /repo (e.g. CPython's Lib/bisect.py in the thorough tier)
+
+    def module(self, mutate=None):
+        return load_module(self.modname, mutate, self.source_path)
+
     def fndef(self, mutate=None):
-        return load_module(self.modname, mutate).func(self.qual)
+        return self.module(mutate).func(self.qual)
 
     def bind(self, fn, pos, kw):
         """bind call-site arguments to parameter names, using the REAL signature"""
@@ -197,7 +202,7 @@ class Contract:
         if fn is None:
             return [Obl(base + "/exists", self.target, "safety", "function %s exists in the current tree" % self.target,
                         status=UNDECIDED, backend="extract", detail="function not found", props=self.props)]
-        mod = load_module(self.modname, mutate)
+        mod = self.module(mutate)
         n_return = 0
         for sh in self.shapes():
             p0 = Path()
